@@ -202,6 +202,9 @@ class Result:
                           (self.prop, known[v["key"]]["what"]), flush=True)
             else:
                 new.append(v)
+        if not self.samples and not self.inconclusive and self.evaluations > 0:
+            # a check that explored cases must show at least one; never leave the list empty silently
+            self.inconclusive.append("the check recorded no sample case (evidence would be incomplete)")
         ev = {
             "property_id": self.prop,
             "tier": self.tier,
